@@ -5,7 +5,9 @@ model of Model/Status.v + History.v evaluated in Coq); the property oracle repor
 CONVERSE one kept by the same Python shadow: whenever every condition holds (file_dep set, each file
 unmodified by the checker's rule w.r.t. what the last successful execution saw, targets, uptodate
 items, at least one dependency) the verdict must be up-to-date.  Touch / same-content rewrite under
-md5 and the immediate re-check after SaveOk are part of the scripted and random histories.
+md5 and the immediate re-check after SaveOk are part of the scripted and random histories; the family
+utd-flip of c03.py (a run whose uptodate item is false after an edit of a file dep, then nothing / a rewrite the
+checker calls unmodified) is the one that needs the state of EVERY file dep recorded by such a run.
 """
 import common
 from common import Outcome
@@ -17,6 +19,7 @@ def run(ctx):
     out.rule = c03.RULE
     c03.explore(ctx, out)
     c03.explore_e2e(ctx, out)
+    c03.shrink_findings(ctx, out, c03=False)
     c03_viol = out.violations
     out.violations = list(out.c04_violations) + [v for v in c03_viol if v['shape'] == 'checker-switch-typeerror']
     out.extra['c03_oracle_findings_seen_here'] = len(c03_viol)
